@@ -371,15 +371,19 @@ def slim(c, flags=None, cid=None):
     return {"id": cid or c["id"], "flags": list(flags if flags is not None else c["flags"]), "trace": c["trace"]}
 
 
-def accept(ctx, cases, label, timeout=1500):
+def accept(ctx, cases, label, timeout=1500, coverage=False):
     """One batch run of TasksTrace; returns {id: first line TLC could not consume} for rejected cases."""
     if not cases:
         return {}, None
     path = os.path.join(ctx.scratch, "tt_%s.json" % label)
     with open(path, "w") as f:
         json.dump(cases, f)
-    res = tlc.accept_batch("TasksTrace", path, ctx.scratch, cfg="TasksTrace.cfg", depth_first=True, workers=1,
-                           timeout=timeout)
+    res = tlc.run("TasksTrace", "TasksTrace.cfg", ctx.scratch, workers=1, env={"CASES": path}, timeout=timeout,
+                  depth_first=True, coverage=coverage, allow_violation=False)
+    if coverage:
+        cov = ctx.cov.setdefault("tlc_action_coverage", {})
+        for name, (d, t) in res.coverage.items():
+            cov[name] = cov.get(name, 0) + t
     if "Model checking completed" not in res.out:
         raise MachineryFailure("TasksTrace did not complete:\n" + res.out[-3000:])
     ctx.add_tlc(res, "TasksTrace:" + label)
@@ -464,7 +468,7 @@ def validate(ctx, prop, cases, label, masked_ids=(), selftest_want=0):
     report every rejection with the deviation flags that explain it."""
     bad, expect = corruptions([c for c in cases if c["id"] in masked_ids] + [c for c in cases if c["id"] not in masked_ids],
                               selftest_want) if selftest_want else ([], {})
-    rej, res = accept(ctx, [slim(c) for c in cases] + bad, label)
+    rej, res = accept(ctx, [slim(c) for c in cases] + bad, label, coverage=True)
     if selftest_want:
         checked = {i: (b, ln) for i, (b, ln) in expect.items() if b not in rej}
         wrong = [(i, rej.get(i), ln) for i, (b, ln) in checked.items() if rej.get(i) != ln]
@@ -489,7 +493,7 @@ def validate(ctx, prop, cases, label, masked_ids=(), selftest_want=0):
             if flag == "deco-killme-claims":
                 sig["subsystem"] = sub
             if c["id"] in masked_ids:
-                sig["masked"] = True          # the masked space must be clean: never matches a known entry
+                sig["clause"] = "masked-space:" + flag   # the masked space must be clean: never matches a known entry
                 nmask += 1
             ln = c["trace"][rej[c["id"]] - 1] if rej[c["id"]] <= len(c["trace"]) else None
             ctx.report(sig, "%s [%s]" % (WHAT.get(flag, flag), sub),
